@@ -16,3 +16,9 @@ pub fn dispatch(tokens: &[&str]) -> Option<String> {
         .or_else(|| misc::dispatch(tokens))
         .or_else(|| conc::dispatch(tokens))
 }
+
+/// `cfg <key> …` lines hx_unit does not handle itself are offered to the packages
+/// (false = configuration mismatch).
+pub fn cfg(tokens: &[&str]) -> bool {
+    layout::cfg(tokens)
+}
